@@ -1639,6 +1639,26 @@ def ref_attr_guards(f: FuncInfo):
     return out
 
 
+
+def rule_s18(ctx, rule: str, in_scope, consequence: str, floor: int = 1):
+    """S18 over the functions of the modules selected by `in_scope(module name)`."""
+    n = 0
+    for m in ctx.repo.pkg_modules():
+        if m.name.endswith("_test") or not in_scope(m.name):
+            continue
+        for f in ctx.repo.live(m.all_funcs):
+            if isinstance(f.node, ast.Lambda):
+                continue
+            for node, guarded in ref_attr_guards(f):
+                n += 1
+                ctx.check(rule, f"S18 {f.local}: the graph-attribute dispatch is not reached for reference attributes", guarded, f, node,
+                          f"`{norm(node.test)[:60]}` holds for a reference attribute of graph type as well (`RefAttr(name, ref, AttributeType.GRAPH)` in a function body whose "
+                          f"control-flow node takes its branches from attribute parameters), which has no value: reading it (`.value` iterated, `.as_graph()`, `.as_graphs()`) "
+                          f"raises TypeError - {consequence}",
+                          how="an is_ref() test that continues / returns / encloses precedes every `attr.type == GRAPH(S)` dispatch that reads the attribute's value",
+                          construct=f"reference attributes reach the graph dispatch of {f.local}")
+    ctx.require(n >= floor, f"only {n} graph-attribute dispatches found")
+
 # ---------------------------------------------------------------------------------------------------------------------- S19
 _BYTE_NAME = __import__("re").compile(r"(bytes|length|offset|budget|_SIZE$)", __import__("re").I)
 
